@@ -563,6 +563,9 @@ func genJunk(r *vh.Rng, c *Case, a *Acc) int {
 	}
 	a.Reg, a.Cnt, a.Side = "v", []int{0, 2, 4}[r.Intn(3)], "timing"
 	a.Idx = wv.NVgpr - r.Intn(width(a.Cnt))
+	if a.Idx < 0 {
+		a.Idx = 0
+	}
 	return 4 * width(a.Cnt)
 }
 
@@ -647,6 +650,17 @@ func genCase(r *vh.Rng, k int) *Case {
 				}
 			} else {
 				a.API, a.Data = "wb", randData(r, wd)
+				if r.Intn(10) == 0 {
+					// data longer than the operand: the surplus must be ignored. A 32-bit half of
+					// vcc/exec handed 8 or more bytes is written as a pair by the timing store
+					// (outside the theorems): only in the hostile stream.
+					extra := 1 + r.Intn(8)
+					half := a.Reg == "vcchi" || a.Reg == "exechi" || ((a.Reg == "vcclo" || a.Reg == "execlo") && a.Cnt <= 1)
+					if half && !c.Hostile {
+						extra = 1 + r.Intn(3)
+					}
+					a.Data = append(a.Data, randData(r, extra)...)
+				}
 			}
 			if !junk {
 				written = append(written, a)
